@@ -88,7 +88,7 @@ Section Sim.
       destruct (cstep (rc s) c (cur (rm s))) as [[oo k]|]; [|discriminate].
       destruct (tok_apply (ctok c) (rtokA s) (rtokB s)) as [[ta tb]|]; [|discriminate].
       destruct oo as [o|].
-      + unfold op_okb in H. cbn [step] in H.
+      + unfold op_okb in H. unfold step in H. cbn [stepx] in H.
         destruct (is_nil (pend (rm s))); [|discriminate].
         destruct (op_result cfg (cur (rm s)) o) as [to|]; inversion H; subst; cbn; reflexivity.
       + inversion H; subst; cbn; reflexivity.
